@@ -8,6 +8,7 @@
 #include "cprover_shim.h"
 #include <stdint.h>
 #include <stddef.h>
+#include <stdlib.h>
 #include <string.h>
 #include "intel-ipsec-mb.h"
 #include "x86_64/error.c" /* real imb_errno, imb_set_errno's global, imb_get_strerror */
@@ -89,6 +90,10 @@ spec_eval(const IMB_JOB *j, const IMB_CIPHER_MODE cm, const IMB_HASH_ALG ha,
         return (es & ~SPEC_ANY) | (any ? SPEC_ANY : 0);
 }
 
+/* ghost: the key length as the entry points hold it (IMB_JOB.key_len_in_bytes is 64 bits wide;
+ * the job API passes that field, the cipher-burst API passes its own key_size argument) */
+uint64_t g_kl64;
+
 /* ghost: catalogue verdict on the pre-state (bound by a requires clause; the
  * descriptor is outside the assigns clause, so it is also the post-state verdict) */
 errset_t g_spec;
@@ -105,7 +110,7 @@ pon_hdr_in_room(const IMB_JOB *j)
 int
 contract_is_job_invalid(IMB_MGR *state, const IMB_JOB *job, const IMB_CIPHER_MODE cipher_mode,
                         const IMB_HASH_ALG hash_alg, const IMB_CIPHER_DIRECTION cipher_direction,
-                        const IMB_KEY_SIZE_BYTES key_len_in_bytes)
+                        const uint64_t key_len_in_bytes)
         /* clang-format off */
 __CPROVER_requires(__CPROVER_is_fresh(state, sizeof(*state)))
 __CPROVER_requires(__CPROVER_is_fresh(job, sizeof(*job)))
@@ -124,7 +129,9 @@ __CPROVER_requires(sgl_applies(job, cipher_mode) ?
                    (job->num_sgl_io_segs <= SGL_MAX_SEGS &&
                     (job->sgl_io_segs == NULL ? job->num_sgl_io_segs == 0 :
                      __CPROVER_is_fresh(job->sgl_io_segs, SGL_MAX_SEGS * sizeof(struct IMB_SGL_IOV)))) : 1)
-__CPROVER_requires(g_spec == spec_eval(job, cipher_mode, hash_alg, cipher_direction, key_len_in_bytes))
+/* the argument is what the callers' implicit conversion of that 64-bit value yields */
+__CPROVER_requires(key_len_in_bytes == (__typeof__(key_len_in_bytes)) g_kl64)
+__CPROVER_requires(g_spec == spec_eval(job, cipher_mode, hash_alg, cipher_direction, g_kl64))
 __CPROVER_assigns(state->imb_errno, imb_errno)
 /* soundness: a job violating a documented constraint is rejected */
 __CPROVER_ensures((g_spec & SPEC_ANY) ==> __CPROVER_return_value != 0)
@@ -186,17 +193,18 @@ int
 contract_is_job_invalid_light(IMB_MGR *state, const IMB_CIPHER_MODE cipher_mode,
                               const IMB_HASH_ALG hash_alg,
                               const IMB_CIPHER_DIRECTION cipher_direction,
-                              const IMB_KEY_SIZE_BYTES key_len_in_bytes)
+                              const uint64_t key_len_in_bytes)
         /* clang-format off */
 __CPROVER_requires(__CPROVER_is_fresh(state, sizeof(*state)))
+__CPROVER_requires(key_len_in_bytes == (__typeof__(key_len_in_bytes)) g_kl64)
 __CPROVER_assigns(state->imb_errno, imb_errno)
-__CPROVER_ensures(spec_light_inv(cipher_mode, hash_alg, cipher_direction, key_len_in_bytes) ==>
+__CPROVER_ensures(spec_light_inv(cipher_mode, hash_alg, cipher_direction, g_kl64) ==>
                   __CPROVER_return_value != 0)
-__CPROVER_ensures(!spec_light_inv(cipher_mode, hash_alg, cipher_direction, key_len_in_bytes) ==>
+__CPROVER_ensures(!spec_light_inv(cipher_mode, hash_alg, cipher_direction, g_kl64) ==>
                   __CPROVER_return_value == 0)
 __CPROVER_ensures(__CPROVER_return_value != 0 ==>
                   (es_of(state->imb_errno) &
-                   spec_light_errs(cipher_mode, hash_alg, cipher_direction, key_len_in_bytes)) != 0)
+                   spec_light_errs(cipher_mode, hash_alg, cipher_direction, g_kl64)) != 0)
 __CPROVER_ensures(__CPROVER_return_value == 0 ==>
                   state->imb_errno == __CPROVER_old(state->imb_errno))
         /* clang-format on */
@@ -219,12 +227,43 @@ h_is_job_invalid(void)
         const IMB_CIPHER_MODE cm = (IMB_CIPHER_MODE) nondet_int();
         const IMB_HASH_ALG ha = (IMB_HASH_ALG) nondet_int();
         const IMB_CIPHER_DIRECTION dir = (IMB_CIPHER_DIRECTION) nondet_int();
-        const IMB_KEY_SIZE_BYTES kl = (IMB_KEY_SIZE_BYTES) nondet_u64();
+        const uint64_t kl = nondet_u64();
 
-        g_ret = is_job_invalid(state, job, cm, ha, dir, kl);
+        g_kl64 = kl;
+        g_ret = is_job_invalid(state, job, cm, ha, dir, kl); /* implicit conversion as in the callers */
         /* vacuity guards: both outcomes must be reachable under the preconditions */
         ;
         ;
+}
+
+/* C06: the dedicated AEAD / combined-mode pairings are accepted only with each other */
+void
+h_pairing(void)
+{
+        IMB_MGR *state = malloc(sizeof(*state));
+        IMB_JOB *job = malloc(sizeof(*job));
+
+        __CPROVER_assume(state != NULL && job != NULL);
+        __CPROVER_assume(job->sgl_state != IMB_SGL_ALL || job->num_sgl_io_segs <= 2);
+        const int full = is_job_invalid(state, job, job->cipher_mode, job->hash_alg,
+                                        job->cipher_direction, job->key_len_in_bytes);
+        const int light = is_job_invalid_light(state, job->cipher_mode, job->hash_alg,
+                                               job->cipher_direction, job->key_len_in_bytes);
+        const IMB_HASH_ALG rh = jc_cipher_required_hash(job->cipher_mode);
+        const IMB_CIPHER_MODE rc = jc_hash_required_cipher(job->hash_alg);
+
+        __CPROVER_assert(full != 0 || rh == 0 || job->hash_alg == rh,
+                         "[C06] accepted job: AEAD cipher mode comes only with its own hash");
+        __CPROVER_assert(full != 0 || rc == 0 || job->cipher_mode == rc,
+                         "[C06] accepted job: AEAD hash comes only with its own cipher mode");
+        __CPROVER_assert(light != 0 || rh == 0 || job->hash_alg == rh,
+                         "[C06] accepted session template: AEAD cipher mode comes only with its own hash");
+        __CPROVER_assert(light != 0 || rc == 0 || job->cipher_mode == rc,
+                         "[C06] accepted session template: AEAD hash comes only with its own cipher mode");
+        __CPROVER_assert(full != 0 || light == 0,
+                         "[C06] a job the full check accepts is accepted as a session template");
+        __CPROVER_assert(!(full == 0 && job->cipher_mode == IMB_CIPHER_SNOW_V_AEAD),
+                         "[VACUITY] an accepted SNOW-V-AEAD job exists");
 }
 
 void
@@ -234,8 +273,9 @@ h_is_job_invalid_light(void)
         const IMB_CIPHER_MODE cm = (IMB_CIPHER_MODE) nondet_int();
         const IMB_HASH_ALG ha = (IMB_HASH_ALG) nondet_int();
         const IMB_CIPHER_DIRECTION dir = (IMB_CIPHER_DIRECTION) nondet_int();
-        const IMB_KEY_SIZE_BYTES kl = (IMB_KEY_SIZE_BYTES) nondet_u64();
+        const uint64_t kl = nondet_u64();
 
+        g_kl64 = kl;
         g_ret = is_job_invalid_light(state, cm, ha, dir, kl);
 }
 #endif /* !NATIVE_REPLAY */
